@@ -224,6 +224,8 @@ def soil_spec(rng, zmax, p_custom=0.3, p_dz=0.25, p_opts=0.35, low_ksat=False, p
             kw["evap_z_max"] = float(pick(rng, [0.2, 0.3, 0.45, 0.6]))
         if chance(rng, 0.15):
             kw["z_top"] = float(pick(rng, [0.1, 0.2, 0.3]))
+        if chance(rng, 0.15):
+            kw["z_res"] = float(pick(rng, [0.5, 1.0, 1.5]))     # documented "depth of restrictive layer"
         # "default program properties" of the soil that a user may still set
         for name, vals, p_ in (("kex", [0.9, 1.1, 1.25], 0.1), ("fwcc", [30, 50, 70], 0.1), ("f_evap", [2, 4, 7], 0.1),
                                ("f_wrel_exp", [0.2, 0.4, 0.6], 0.08), ("fshape_cr", [8, 16, 24], 0.1),
